@@ -1,7 +1,7 @@
 (* Request/response interface of the executable model: one S-expression in,
    one out.  Shared by the extracted runner and the in-Coq path. *)
 From InfluxQL Require Import Base.Prelude Base.Sexp Base.Oracles Lex.Token Lex.Reader Lex.Scanner Ast.Ast Ast.SexpAst
-  Val.Duration Parse.ExprTree Parse.Instr Parse.ParseExpr Parse.ParseStmts Ast.Printer Ast.PrinterStmts Parse.Params Ast.Privileges Ast.ColumnNames Sem.Eval Sem.Reduce Sem.Condition Ast.Clone Ast.GroupBy San.Sanitize Lex.Quote.
+  Val.Duration Parse.ExprTree Parse.Instr Parse.ParseExpr Parse.ParseStmts Ast.Printer Ast.PrinterStmts Parse.Params Ast.Privileges Ast.ColumnNames Sem.Eval Sem.Reduce Sem.Condition Ast.Clone Ast.GroupBy San.Sanitize Lex.Quote Sem.Regex.
 
 Definition bad_request : sexp := L [A (-1)].
 
@@ -54,6 +54,31 @@ Fixpoint sd_gval (s : sexp) : option gval :=
   | L [A 7] => Some GOther
   | _ => None
   end.
+
+Fixpoint sd_resyn (s : sexp) : option resyn :=
+  match s with
+  | L [A 1; f; rs] => f' <-o sd_bool f ;; rs' <-o sd_text rs ;; Some (RLit f' rs')
+  | L [A 2; f; L rg] =>
+      f' <-o sd_bool f ;;
+      rg' <-o sd_all (map (fun p => match p with L [A lo; A hi] => Some (lo, hi) | _ => None end) rg) ;;
+      Some (RClass f' rg')
+  | L [A 3; f; r] => f' <-o sd_bool f ;; r' <-o sd_resyn r ;; Some (RCapture f' r')
+  | L [A 4; f; L subs] => f' <-o sd_bool f ;; subs' <-o sd_all (map sd_resyn subs) ;; Some (RConcat f' subs')
+  | L [A 5; f; L subs] => f' <-o sd_bool f ;; subs' <-o sd_all (map sd_resyn subs) ;; Some (RAlt f' subs')
+  | L [A 6] => Some RBeginText
+  | L [A 7] => Some REndText
+  | L [A 8] => Some RBeginLine
+  | L [A 9] => Some REndLine
+  | L [A 10; f; A op] => f' <-o sd_bool f ;; Some (ROther f' op)
+  | _ => None
+  end.
+(* ((pattern (0)|(1 tree)) ...) *)
+Definition sd_syn_table (s : sexp) : option (list (text * option resyn)) :=
+  sd_list (fun p => match p with
+                    | L [k; v] => k' <-o sd_text k ;; v' <-o sd_opt sd_resyn v ;; Some (k', v')
+                    | _ => None end) s.
+Definition syn_of (tbl : list (text * option resyn)) (p : text) : option resyn :=
+  match assoc_text p tbl with Some v => v | None => None end.
 
 Definition fuel_of (src : text) : nat := (4 * length src + 16)%nat.
 
@@ -229,6 +254,21 @@ Definition dispatch1 (orc : oracles) (req : sexp) : sexp :=
       | 23%nat, [t] => match sd_text t with Some t' => se_text (quote_string t') | None => bad_request end
       | 24%nat, [segs] => match sd_list sd_text segs with Some l => se_text (quote_ident (o_ulower orc) l) | None => bad_request end
       | 25%nat, [t] => match sd_text t with Some t' => se_bool (ident_needs_quotes (o_ulower orc) t') | None => bad_request end
+      | 26%nat, [tbl; e] =>
+          match sd_syn_table tbl, sd_expr e with
+          | Some tbl', Some e' => se_expr (rewrite_regex_conditions (syn_of tbl') e')
+          | _, _ => bad_request
+          end
+      | 27%nat, [re; t] =>
+          match sd_resyn re, sd_text t with
+          | Some re', Some t' => se_bool (match_string re' t')
+          | _, _ => bad_request
+          end
+      | 28%nat, [re] =>
+          match sd_resyn re with
+          | Some re' => se_opt (se_list se_text) (match_exact re')
+          | None => bad_request
+          end
       | 12%nat, [e] => match sd_expr e with Some e' => se_text (print_expr orc e') | None => bad_request end
       | _, _ => bad_request
       end
